@@ -82,6 +82,9 @@ type urlCase struct {
 	Base AURL `json:"base"`
 	Ref  AURL `json:"ref"`
 	Want AURL `json:"want"`
+	// replay only: the very observation to reproduce
+	ID  int    `json:"id"`
+	API string `json:"api"`
 }
 
 type urlObs struct {
@@ -109,8 +112,22 @@ func init() {
 				return err
 			}
 			urlCounter++
+			if c.API != "" {
+				if strings.HasPrefix(c.API, "TwoHop") {
+					emit(runTwoHop(c.ID, c.API, c))
+				} else {
+					emit(runURLCase(c.ID, c.API, c))
+				}
+				return nil
+			}
 			for _, api := range []string{"ExpandSchemaWithBasePath", "ResolveRefWithBase"} {
 				emit(runURLCase(urlCounter, api, c))
+			}
+			// second hop: the reference stands in a document that was itself reached through a $ref
+			for _, api := range []string{"TwoHop:schema", "TwoHop:response", "TwoHop:parameter"} {
+				if (urlCounter+len(api))%3 == 0 || c.Ref.Scheme == "" && len(c.Ref.Segs) <= 2 {
+					emit(runTwoHop(urlCounter, api, c))
+				}
 			}
 			return nil
 		},
@@ -173,5 +190,90 @@ func runURLCase(id int, api string, c urlCase) (o *urlObs) {
 	o.GotS = ascii(first)
 	g, _ := parseAURL(first)
 	o.Got = toAtoms(g)
+	return o
+}
+
+// runTwoHop: the enumerated base is the location of an INTERMEDIATE document.  The expansion starts
+// from another root (whose location is a string prefix of it), reaches the intermediate document through
+// an absolute $ref, and finds the enumerated reference there: the next request must be for
+// Resolve(intermediate, ref), whatever the root was.
+func runTwoHop(id int, api string, c urlCase) (o *urlObs) {
+	o = &urlObs{ID: id, API: api, Base: c.Base, Ref: c.Ref, Want: c.Want}
+	o.BaseS, o.RefS = renderURL(c.Base), renderURL(c.Ref)
+	bu, _ := url.Parse(o.BaseS)
+	if ru, err := url.Parse(o.RefS); err == nil {
+		nu := bu.ResolveReference(ru)
+		nu.Fragment = ""
+		na, _ := parseAURL(nu.String())
+		o.NetURL = toAtoms(na)
+	}
+	// the root's location is a string prefix of the intermediate document's: its directory, spelled
+	// without a trailing slash (an extension-less root document), or its name without the extension
+	rootS := o.BaseS[:strings.LastIndex(o.BaseS, "/")]
+	if len(c.Base.Segs) < 2 || id%4 == 0 {
+		rootS = strings.TrimSuffix(o.BaseS, ".json")
+	}
+	if rootS == o.BaseS {
+		rootS = o.BaseS + ".root"
+	}
+	refJ := string(mustJSON(o.RefS))
+	mid := `{"definitions":{"x":{"$ref":` + refJ + `}},"responses":{"x":{"description":"d","schema":{"$ref":` + refJ + `}}},` +
+		`"parameters":{"x":{"name":"b","in":"body","schema":{"$ref":` + refJ + `}}}}`
+	other := `{"title":"doc","p":{"title":"x"},"definitions":{"x":{"title":"x"}}}`
+	var next string
+	sawMid := false
+	loader := func(u string) (json.RawMessage, error) {
+		if u == o.BaseS {
+			sawMid = true
+			return json.RawMessage(mid), nil
+		}
+		if next == "" && sawMid {
+			next = u
+		}
+		return json.RawMessage(other), nil
+	}
+	defer func() {
+		if r := recover(); r != nil {
+			o.Outcome = "panic"
+			o.Err = ascii(fmt.Sprint(r))
+		}
+		if o.Got.Segs == nil {
+			o.Got = AURL{Segs: []string{}, Ptr: []string{}}
+		}
+		if o.NetURL.Segs == nil {
+			o.NetURL = AURL{Segs: []string{}, Ptr: []string{}}
+		}
+	}()
+	opts := &spec.ExpandOptions{RelativeBase: rootS, PathLoader: loader}
+	var err error
+	switch api {
+	case "TwoHop:schema":
+		var s spec.Schema
+		_ = json.Unmarshal([]byte(`{"$ref":`+string(mustJSON(o.BaseS+"#/definitions/x"))+`}`), &s)
+		err = spec.ExpandSchemaWithBasePath(&s, nil, opts)
+	default:
+		sec := "responses"
+		if api == "TwoHop:parameter" {
+			sec = "parameters"
+		}
+		var sw spec.Swagger
+		_ = json.Unmarshal([]byte(`{"swagger":"2.0","info":{"title":"t","version":"1"},"paths":{},"`+sec+`":{"e":{"$ref":`+
+			string(mustJSON(o.BaseS+"#/"+sec+"/x"))+`}}}`), &sw)
+		err = spec.ExpandSpec(&sw, opts)
+	}
+	if err != nil {
+		o.Err = ascii(err.Error())
+	}
+	switch {
+	case !sawMid:
+		o.Outcome = "nomid"
+	case next == "":
+		o.Outcome = "noload2"
+	default:
+		o.Outcome = "loaded"
+		o.GotS = ascii(next)
+		g, _ := parseAURL(next)
+		o.Got = toAtoms(g)
+	}
 	return o
 }
